@@ -420,6 +420,10 @@ def parent_main(prop, tier):
     }
     if hasattr(mod, "coverage_extra"):
         cov.update(mod.coverage_extra(cov))
+    if hasattr(mod, "postcheck") and not violations:
+        perr = mod.postcheck(cov, tier)  # e.g. "an interesting class was never generated": harness error
+        if perr:
+            errors.append("postcheck: " + perr)
     wall = time.time() - t0
     rc = 0
     if violations:
